@@ -65,6 +65,53 @@ def body_proj_init_rng(E, n, deficient_calls):
         E.prove(len(used) == 0, 'proj-init:no-random-fallback')
 
 
+def body_qr_rank(E, n):
+    """qr_rank(A) as the projections initialisation relies on it: entry k of the returned diagonal is the distance of COLUMN k of A from the
+    span of the columns before it (|R_kk| of the plain, unpivoted QR), and the rank counts the entries above the tolerance.  The QR is a
+    contract stub: R upper triangular with R^T R = A^T A (plain QR), or - if the code asks for column pivoting - the same for the permuted
+    matrix with a non-increasing diagonal."""
+    from ..arr import SArr
+    np = E.np
+    A = E.mat('A', n, n)
+    tol = E.real('tol', npy=False, lo=0)
+    seen = {}
+
+    def la(name, args, kw):
+        if name != 'qr':
+            return NotImplemented
+        M_ = args[0]
+        piv = bool(kw.get('pivoting', False))
+        seen['pivoting'] = piv
+        R = E.mat('R', n, n)
+        for i in range(n):
+            for j in range(i):
+                R[i, j] = 0 * R[i, j]
+        cols = list(range(n))
+        if piv:
+            swap = E.is_true(np.dot(M_[:, 1], M_[:, 1]) > np.dot(M_[:, 0], M_[:, 0])) if n == 2 else False
+            cols = [1, 0] if swap else [0, 1]
+        for i in range(n):
+            for j in range(i, n):
+                E.assume(E.eq(np.dot(R[:, i], R[:, j]), np.dot(M_[:, cols[i]], M_[:, cols[j]])))
+        Q = E.mat('Q', n, n)
+        mode = kw.get('mode', 'full')
+        out = (R,) if mode == 'r' else (Q, R)
+        if piv:
+            out = out + (SArr.from_flat(cols, (n,), 'i'),)
+        return out
+    if E.symbolic:
+        E.hooks(la=la)
+    rank, D = E.get('qr_rank')(A, tol=tol)
+    c0 = np.dot(A[:, 0], A[:, 0])
+    E.prove(E.eq(D[0] * D[0], c0, tol=1e-9), 'qr_rank:first-diagonal-entry-is-the-norm-of-the-first-column')
+    if n == 2:
+        c1 = np.dot(A[:, 1], A[:, 1])
+        c01 = np.dot(A[:, 0], A[:, 1])
+        E.prove(E.eq(D[1] * D[1] * c0, c0 * c1 - c01 * c01, tol=1e-9), 'qr_rank:second-diagonal-entry-is-the-distance-of-the-second-column-from-the-first')
+    cnt = sum(E.ite(D[k] > tol, 1, 0) for k in range(n))
+    E.prove(rank == cnt, 'qr_rank:rank-counts-diagonal-entries-above-the-tolerance')
+
+
 def body_proj_init_revert(E, n, improving_call):
     """projections branch of initialise_coordinate_directions, rank-deficient directions: the repair loops try sign flips chosen by
     np.random; a flip that did not raise the rank must leave no trace, so that the directions evaluated depend on the random selectors only
@@ -143,6 +190,23 @@ def harnesses(tier, seed):
                           assumptions=["dykstra, qr_rank stubbed (arbitrary outputs); symbolic execution only (SymEnv storage subclass), no concrete replay"],
                           nproc=1, replay=False, wall_budget=200, max_paths=3000,
                           expect=['proj-init:random-draws-unused-when-coordinate-directions-are-independent']))
+    # rank-deficient projected directions: the repair stages draw from numpy's global generator (replayed through dfols.solve with all
+    # options at their defaults; recorded as a known finding, see known_findings.json)
+    hs.append(Harness("projections-init-rng[n=2,rank-deficient-tests=3]", 'dfverif.checks.c19', 'body_proj_init_rng', params=dict(n=2, deficient_calls=3),
+                      cfg=core.Cfg(qtimeout_ms=20000, uflin=True), functions=['controller.Controller.initialise_coordinate_directions'],
+                      bounds="n=2, projections branch, direction matrix reported rank deficient at the first 3 rank tests (both deterministic repair stages fail)",
+                      assumptions=["dykstra, qr_rank stubbed (arbitrary outputs); the counterexample is replayed at API level (dfols.solve, defaults, n=3, two half-spaces, x0 on the edge)"],
+                      nproc=1, replay='replay_proj_init', wall_budget=90, max_paths=60, expect=['proj-init:no-random-fallback'], expect_exhaustive=False))
+    hs.append(Harness("qr_rank[n=2]", 'dfverif.checks.c19', 'body_qr_rank', params=dict(n=2), cfg=core.Cfg(fork_queries=True, qtimeout_ms=15000, portfolio=True, portfolio_s=60, portfolio_logic='QF_NRA'),
+                      functions=['util.qr_rank'], bounds="any 2x2 matrix, any tolerance >= 0", assumptions=["scipy.linalg.qr by contract: R upper triangular, R^T R = A^T A (of the column-permuted matrix with non-increasing diagonal if pivoting is requested)"],
+                      expect=['qr_rank:rank-counts-diagonal-entries-above-the-tolerance'], nproc=1, wall_budget=120))
+    # the caller's dictionary is also out of reach of the option defaults the solver picks once m is known (real solve + real solve_main start)
+    from . import c07
+    for h in c07.harnesses(tier, seed):
+        if h.name.startswith('growing-default[n=2,m=1'):
+            h.home = 'C07'
+            h.expect = ['C19:growing-default:user_params-not-modified']
+            hs.append(h)
     for ic in ((3, 4) if tier == 'quick' else (2, 3, 4, 5, 6)):
         hs.append(Harness("projections-init-revert[n=2,improving-rank-test=%d]" % ic, 'dfverif.checks.c19', 'body_proj_init_revert', params=dict(n=2, improving_call=ic),
                           cfg=core.Cfg(qtimeout_ms=20000, uflin=True), functions=['controller.Controller.initialise_coordinate_directions'],
@@ -159,21 +223,25 @@ def replay_proj_init(params, label, model):
     if label != 'proj-init:no-random-fallback':
         return False, 'no replay for this label'
     seqs = []
-    for seed in (0, 1):
+    hs_ = lambda a, b: (lambda x: x - (max(np.dot(a, x) - b, 0.0) / np.dot(a, a)) * a)
+    for seed in (0, 1, 2):
         np.random.seed(seed)
         pts = []
 
         def r(x):
             pts.append(x.copy())
-            return np.array([x[0] - 1.0, x[1] + x[0]])
+            return np.array([x[0] + 1.0, x[1] + 2.0, x[2] - 0.5])
         with warnings.catch_warnings():
             warnings.simplefilter('ignore')
             try:
-                # feasible set = the line x1 = 0: both projected coordinate directions are parallel
-                dfols.solve(r, np.array([0.5, 0.0]), projections=[lambda w: np.array([w[0], 0.0])], maxfun=4, rhobeg=0.1)
+                # all options at their defaults; feasible set {x2 <= x1 <= 0} as two half-space projections, x0 = 0 on its edge:
+                # the projected coordinate directions are rank deficient and neither deterministic repair stage restores the rank
+                dfols.solve(r, np.zeros(3), projections=[hs_(np.array([1.0, 0.0, 0.0]), 0.0), hs_(np.array([-1.0, 1.0, 0.0]), 0.0)], maxfun=40, do_logging=False)
             except Exception as e:     # noqa
-                pts.append(np.array([np.nan, np.nan]))
+                pts.append(np.array([np.nan, np.nan, np.nan]))
         seqs.append(np.array(pts))
+    if seqs[0].shape == seqs[1].shape and np.array_equal(seqs[0], seqs[1], equal_nan=True):
+        seqs[1] = seqs[2]
     same = seqs[0].shape == seqs[1].shape and np.array_equal(seqs[0], seqs[1], equal_nan=True)
     return (not same), 'evaluation sequences under np.random.seed(0) / seed(1): %s' % ('identical' if same else 'different')
 
